@@ -313,6 +313,13 @@ def parseText (O : PyOracle) (source : Line) : PM J := do
     | none =>
       if passages.any (·.1 == "Start".toList) then pure "Start".toList
       else pure (match passages with | (k, _) :: _ => k | [] => [])
+  -- the game enters the initial passage without arguments
+  match passages.lookup initial with
+  | some ip =>
+    if ip.params.any (fun p => match p with
+        | .obj kvs => (match kvs.lookup "default" with | some .null => true | _ => false)
+        | _ => false) then valErr "Initial passage has required parameter(s)"
+  | none => pure ()
   pure (.obj [("version", jstr "0.1.0"), ("initial_passage", .str initial),
               ("metadata", .obj (s.metadata.map fun kv => (String.ofList kv.1, .str kv.2))),
               ("imports", .arr (s.imports.map .str)),
